@@ -122,6 +122,8 @@ def factory_discipline_history(ctx):
 
     t = ctx.tape
     cat = [c for c in factory_catalogue() if c[0] != "DensityFilter"]  # (its 10^4 x 10^4 Jacobian: see the large-sparse family)
+    # (processes - chains, MDAs - come up six times more often: their Jacobian is composed from the state of sub-disciplines)
+    cat = [c for c in cat for _ in range(6 if ("Chain" in c[0] or "MDA" in c[0]) else 1)]
     name, lin_ok, _ = cat[t.choice(len(cat), "factory_index")]
     policy = t.pick(["SimpleCache", "MemoryFullCache", "HDF5Cache"], "policy")
     SingleInstancePerFileAttribute.instances.clear()
@@ -136,16 +138,31 @@ def factory_discipline_history(ctx):
     pool = [{}, {k: v * 1.02 for k, v in base.items()}, {k: v * 0.97 for k, v in base.items()}]
     iterative = "MDA" in name or "Chain" in name
     rtol = 1e-5 if iterative else 1e-12
+    # the caller hands over the same arrays at every call and overwrites them in place between two calls
+    reuse = bool(base) and t.flag(0.4, "caller_reuses_buffers")
+    buffers = {n: v.copy() for n, v in base.items()}
+    if reuse:
+        pool[0] = {n: v.copy() for n, v in base.items()}
+        ctx.fire("caller_overwrites_passed_array")
     sig = f"factory discipline {name} {policy}"
     ops = []
-    for i in range(t.randint(2, 6, "n_ops")):
+    # "come back" histories: execute at a, execute at b, then linearize at a (outputs of a come from the cache while
+    # the internal state of a process is the one of b)
+    forced = [(False, 1), (False, 2), (True, 1)] if lin_ok and t.flag(0.3, "come_back_history") else []
+    for i in range(len(forced) or t.randint(2, 6, "n_ops")):
         with t.frame("op"):
-            k = t.choice(3, "input")
-            lin = lin_ok and t.flag(0.5, "linearize")
+            if forced:
+                lin, k = forced[i]
+            else:
+                k = t.choice(3, "input")
+                lin = lin_ok and t.flag(0.5, "linearize")
             ops.append(("lin" if lin else "exec", k))
             res = []
+            if reuse:
+                for n_, v_ in pool[k].items():
+                    buffers[n_][...] = v_
             for obj in (twin, d):
-                inp = {n: v.copy() for n, v in pool[k].items()}
+                inp = {n: v.copy() for n, v in pool[k].items()} if (obj is twin or not reuse) else buffers
                 if lin:
                     jac = obj.linearize(inp, compute_all_jacobians=True)
                     res.append({o: {i_: dense(v) for i_, v in jo.items()} for o, jo in jac.items()})
